@@ -223,6 +223,28 @@ theorem close_passes_client_inside_disconnect_hook (s : St) (k : Nat) (hk : s.cf
     refine ⟨dedRelease (baseClose s) k, by simp [step, hp', hk], ?_, ?_, ?_⟩ <;>
       (unfold dedRelease afterEnd; split <;> simp [baseClose, hcl])
 
+/-- **a client for which no thread / child process could be started** (`spawn()` / `os.fork()` failed: threaded and
+forking servers): in any state, if it is accepted at all it is terminated at once - end-of-stream, no descriptor, not
+tracked, no child, no connection, no service instance, no hook ever run - and every other record, the queue and the
+blocked list are exactly as before: nothing of it remains -/
+theorem failed_spawn_leaves_nothing (s t : St) (k : Nat) (h : step s (.connectNoSpawn k) = .ok (t, .ok)) :
+    Terminated (t.cli k) ∧ (t.cli k).inst = none ∧ (t.cli k).polled = false ∧
+    (∀ j, j ≠ k → t.cli j = s.cli j) ∧ t.queue = s.queue ∧ t.blocked = s.blocked ∧ t.listening = s.listening := by
+  rcases step_connectNoSpawn h with ⟨_, ho⟩ | ⟨rfl, _⟩
+  · cases ho
+  · refine ⟨?_, by simp [rejectNew, turnedAway], by simp [rejectNew, turnedAway], ?_, rfl, rfl, rfl⟩
+    · refine ⟨?_, ?_, ?_, ?_, ?_, ?_, ?_, ?_⟩ <;> simp [rejectNew, turnedAway]
+    · intro j hj; simp [rejectNew, set_cli_ne _ _ _ _ hj]
+
+/-- ... e.g. on a forking server with a client being served: the unlucky client 2 sees end-of-stream, client 1 goes on
+being served, client 3 is served -/
+example : runObs (init { kind := .forking, auth := false, nb := 1 })
+      [.connect 1 .good, .call 1 .ping, .connectNoSpawn 2, .call 1 .ping, .connect 3 .good, .call 3 .ping] =
+    [some .ok, some (.reply .pong), some .ok, some (.reply .pong), some .ok, some (.reply .pong)] ∧
+    ((run (init { kind := .forking, auth := false, nb := 1 }) [.connect 1 .good, .connectNoSpawn 2]).cli 2).shut = true ∧
+    ((run (init { kind := .forking, auth := false, nb := 1 }) [.connect 1 .good, .connectNoSpawn 2]).cli 2).child = false :=
+  by decide
+
 /-! ### closing a pool whose workers are busy reading -/
 
 /-- the obligation: the code's `ThreadPoolServer.close()` ends the connections' streams BEFORE it joins the workers -
